@@ -12,7 +12,7 @@ assert mp, "no property id in README"
 prop = mp.group(1)
 m = re.search(r"go test[^\n`]*-run\s+(\S+)\s+(\./\S+)", readme)
 assert m, "no go test command in README"
-run, pkg = m.group(1), m.group(2).rstrip("`").rstrip("/")
+run, pkg = m.group(1).strip("'\""), m.group(2).rstrip("`").rstrip("/")
 kind = "bug-class-catalogue"
 name = "%s-r12-%s%s" % (prop, grp, sn)
 demos = [f for f in os.listdir(seed) if f.endswith(".go")]
